@@ -343,7 +343,7 @@ static void cmd_gssvx(kv_t *K)
     {
 	int did_fact = (fact != FACTORED) && lwork != -1 && vrt_xerbla_count == 0;
 	int rowact, colact, Aok = 1, Bok = 1, Xunch = 1, permunch, Lunch = -1, Aunch;
-	long omega = -1, berrdev = -1, berrabs = -1, ferrok = -1, rc_lo = -1, rc_hi = -1, rpgdev = -1, condk = -1; int eqv = (int) S.equed;
+	long omega = -1, berrdev = -1, berrabs = -1, ferrok = -1, rc_lo = -1, rc_hi = -1, rpgdev = -1, condk = -1; int eqv = (int) S.equed; int refok = 0; long omegan = -1; long double skeel = -1, growth = 1, sigma = 1;
 	REAL *rho, *gam;    /* scaling of the rows / columns of the user's matrix */
 	if (did_fact && info >= 0 && info <= n + 1) { S.haveLU = 1; S.LUuser = lwork > 0; S.factver = S.ver; }
 	rowact = (S.equed == ROW || S.equed == BOTH); colact = (S.equed == COL || S.equed == BOTH);
@@ -381,6 +381,17 @@ static void cmd_gssvx(kv_t *K)
 	    lc *Xd = lc_zeros((long) n * nrhs); long double w, wt, nu = (long double) (n + 1) * UNIT_ROUNDOFF;
 	    for (c = 0; c < nrhs; ++c) for (i = 0; i < n; ++i) Xd[i + (long) c * n] = to_lc(x[i + (long) c * ldx]);
 	    w = omega_of(S.Ad, op, Xd, B0, n, nrhs); omega = permille(w / nu);
+	    {   /* mixed normwise backward error ||r||_inf / (|| |op(A)||x| ||_inf + ||b||_inf) of the ORIGINAL system */
+		long double wn = 0;
+		for (c = 0; c < nrhs; ++c) { long double rn = 0, dn = 0, bn = 0, mx = 0, mn = HUGE_VALL;
+		    for (i = 0; i < n; ++i) { lc acc = 0; long double d = 0;
+			for (j = 0; j < n; ++j) { lc a = op_entry(S.Ad, n, op, i, j), xx = Xd[j + (long) c * n]; acc += a * xx; d += cabsl(a) * cabsl(xx); }
+			if (cabsl(B0[i + (long) c * n] - acc) > rn) rn = cabsl(B0[i + (long) c * n] - acc);
+			if (d > dn) dn = d; if (cabsl(B0[i + (long) c * n]) > bn) bn = cabsl(B0[i + (long) c * n]);
+			(void) mx; (void) mn; }
+		    if (dn + bn > 0 && rn / (dn + bn) > wn) wn = rn / (dn + bn); }
+		omegan = permille(wn / nu);
+	    }
 	    {   /* equilibrated system as returned: Aeq (user orientation), Beq, Xeq */
 		lc *Aeq = lc_zeros((long) n * n), *Beq = lc_zeros((long) n * nrhs), *Xeq = lc_zeros((long) n * nrhs), *Inv;
 		REAL *xs = op == 0 ? gam : rho;   /* X = diag(xs) Xeq */
@@ -388,6 +399,12 @@ static void cmd_gssvx(kv_t *K)
 		    if (S.stype == 0) Aeq[S.ind[i] + (long) j * n] += to_lc(S.val[i]); else Aeq[j + (long) S.ind[i] * n] += to_lc(S.val[i]); }
 		for (c = 0; c < nrhs; ++c) for (i = 0; i < n; ++i) { Beq[i + (long) c * n] = to_lc(b[i + (long) c * ldb]);
 		    Xeq[i + (long) c * n] = Xd[i + (long) c * n] / (xs ? (long double) xs[i] : 1.0L); }
+		/* Skeel's sigma(M, y) = max_i (|M||y|)_i / min_i (|M||y|)_i of the equilibrated system that is refined */
+		for (c = 0; c < nrhs; ++c) { long double mx = 0, mn = HUGE_VALL;
+		    for (i = 0; i < n; ++i) { long double d = 0;
+			for (j = 0; j < n; ++j) d += cabsl(op_entry(Aeq, n, op, i, j)) * cabsl(Xeq[j + (long) c * n]);
+			if (d > mx) mx = d; if (d < mn) mn = d; }
+		    if (mn > 0) { if (mx / mn > sigma) sigma = mx / mn; } else sigma = HUGE_VALL; }
 		wt = 0;
 		for (c = 0; c < nrhs; ++c) {
 		    long double wc = omega_of(Aeq, op, Xeq + (long) c * n, Beq + (long) c * n, n, 1), d = fabsl((long double) berr[c] - wc) / nu;
@@ -400,6 +417,15 @@ static void cmd_gssvx(kv_t *K)
 		    long double an, ain, ae = 0, kap; lc *ev = lc_zeros(n); int nrm1 = (op == 0);   /* 1-norm when A X = B, inf-norm otherwise */
 		    an = nrm1 ? norm1(n, Aeq) : norminf(n, Aeq); ain = nrm1 ? norm1(n, Inv) : norminf(n, Inv);
 		    kap = an * ain; condk = kap < 1e15L ? (long) kap : 1000000000L;
+		    {   /* Skeel condition number || |M^-1| |M| ||_inf of the system that is refined, M = op(Aeq): what the
+			   contraction of componentwise iterative refinement depends on (invariant under row scaling of M) */
+			int_t k2; skeel = 0;
+			for (i = 0; i < n; ++i) { long double rs = 0;
+			    for (j = 0; j < n; ++j) { long double t = 0;
+				for (k2 = 0; k2 < n; ++k2) { lc mi = op == 0 ? Inv[i + (long) k2 * n] : Inv[k2 + (long) i * n], m = op == 0 ? Aeq[k2 + (long) j * n] : Aeq[j + (long) k2 * n]; t += cabsl(mi) * cabsl(m); }
+				rs += t; }
+			    if (rs > skeel) skeel = rs; }
+		    }
 		    /* || inv(A) e/n ||  (1-norm) resp. || inv(A)' e/n || */
 		    for (i = 0; i < n; ++i) { lc acc = 0; for (j = 0; j < n; ++j) acc += (nrm1 ? Inv[i + (long) j * n] : Inv[j + (long) i * n]) / (long double) n; ae += cabsl(acc); }
 		    if (rcond > 0) { rc_lo = permille((1.0L / kap) / (long double) rcond); rc_hi = permille((long double) rcond * an * ae); }
@@ -431,10 +457,14 @@ static void cmd_gssvx(kv_t *K)
 			    if (um > 0 && am / um < best) best = am / um; }
 			if (getenv("VERIF_DEBUG")) fprintf(stderr, "rpg dbg lib=%.17g oracle=%.17Lg\n", (double) rpg, best);
 			if (best < HUGE_VALL && best > 0) rpgdev = permille(fabsl((long double) rpg - best) / (best * 64.0L * UNIT_ROUNDOFF));
+			if (best < HUGE_VALL && best > 0 && best < 1) growth = 1.0L / best;
 			free(ipc);
 		    }
 		    free(Ld); free(Ud); if (Af != Aeq) free(Af);
 		}
+		/* the premise under which the property promises the refined accuracy, cond * growth * n * eps <= 1e-3, with the
+		   condition number under which fixed-precision refinement provably contracts (Skeel 1980): cond(M) * sigma(M, x) */
+		refok = skeel >= 0 && sigma < HUGE_VALL && skeel * sigma * growth * (long double) n * UNIT_ROUNDOFF <= 1e-3L;
 		free(Aeq); free(Beq); free(Xeq);
 	    }
 	    free(Xd);
@@ -442,10 +472,10 @@ static void cmd_gssvx(kv_t *K)
 	vrt_log_raw("\"e\":\"Call\",\"call\":\"gssvx\",\"P\":%d,\"n\":%d,\"stype\":%d,\"fact\":\"%s\",\"refact\":%d,\"usepr\":%d,\"trans\":\"%c\",\"lwmode\":%d,\"nrhs\":%d,\"sym\":%d,"
 		    "\"ver\":%d,\"factver\":%d,\"info\":%ld,\"xerbla\":%d,\"xinfo\":%d,\"equed\":%d,\"Aok\":%d,\"Aunch\":%d,\"Bok\":%d,\"Xunch\":%d,\"permunch\":%d,\"Lunch\":%d,"
 		    "\"permc\":%d,\"permr\":%d,\"omega\":%ld,\"berrdev\":%ld,\"berrabs\":%ld,\"ferrok\":%ld,\"rclo\":%ld,\"rchi\":%ld,\"rpgdev\":%ld,\"cond\":%ld,"
-		    "\"rcondsmall\":%d,\"needed\":%ld,\"inside\":%d,\"thr0\":%d,\"thr1\":%d,\"live0\":%ld,\"live1\":%ld,\"u1000\":%d,\"prpc\":%d,\"outh\":\"%lx\",\"reqs\":%ld,\"guard\":%d",
+		    "\"refok\":%d,\"omegan\":%ld,\"rcondsmall\":%d,\"needed\":%ld,\"inside\":%d,\"thr0\":%d,\"thr1\":%d,\"live0\":%ld,\"live1\":%ld,\"u1000\":%d,\"prpc\":%d,\"outh\":\"%lx\",\"reqs\":%ld,\"guard\":%d",
 		    P, n, S.stype, facts, refact, usepr, trs[0], lwork > 0 ? 1 : (int) lwork, nrhs, sym, S.ver, S.factver, (long) info, vrt_xerbla_count, vrt_xerbla_info, eqv,
 		    Aok, Aunch, Bok, Xunch, permunch, Lunch, is_perm(S.perm_c, n), S.haveLU ? is_perm(S.perm_r, n) : -1,
-		    omega, berrdev, berrabs, ferrok, rc_lo, rc_hi, rpgdev, condk,
+		    omega, berrdev, berrabs, ferrok, rc_lo, rc_hi, rpgdev, condk, refok, omegan,
 		    (rcond >= 0 && rcond < mach_eps()) ? 1 : 0, (long) (mu.total_needed > 2000000000.0f ? 2000000000L : (long) mu.total_needed),
 		    (S.haveLU && S.LUuser) ? ((char *) ((SCPformat *) S.L.Store)->nzval >= (char *) S.work && (char *) ((SCPformat *) S.L.Store)->nzval < (char *) S.work + S.lwork) : -1,
 		    thr0, thr1, live0, live1, (int) (u * 1000), (S.haveLU && !memcmp(S.perm_r, S.perm_c, sizeof(int_t) * n)) ? 1 : 0,
